@@ -32,8 +32,14 @@ def goenv():
 
 def run(cmd, cwd=None, env=None, inp=None, timeout=None):
     t0 = time.time()
-    p = subprocess.run(cmd, cwd=cwd, env=env, input=inp, stdout=subprocess.PIPE, stderr=subprocess.PIPE,
-                       timeout=timeout, shell=isinstance(cmd, str))
+    try:
+        p = subprocess.run(cmd, cwd=cwd, env=env, input=inp, stdout=subprocess.PIPE, stderr=subprocess.PIPE,
+                           timeout=timeout, shell=isinstance(cmd, str))
+    except subprocess.TimeoutExpired as e:
+        # a sub-process that outlives its (generous) limit: reported like a failing command (rc 124) with what it had written, never as a Python traceback
+        so = (e.stdout or b"").decode("utf-8", "replace") if isinstance(e.stdout, (bytes, type(None))) else str(e.stdout)
+        se = (e.stderr or b"").decode("utf-8", "replace") if isinstance(e.stderr, (bytes, type(None))) else str(e.stderr)
+        return 124, so, se + "\n[timed out after %s s: %s]" % (timeout, cmd if isinstance(cmd, str) else " ".join(map(str, cmd[:3]))), time.time() - t0
     return p.returncode, p.stdout.decode("utf-8", "replace"), p.stderr.decode("utf-8", "replace"), time.time() - t0
 
 
@@ -269,6 +275,10 @@ def run_harness_resilient(binary, engine, lines, args=None, timeout=3600, crash_
         got, se, rc = run_harness(binary, engine, lines[i:], args=args, timeout=timeout, env=dict(env) if env else None)
         out += got
         i += len(got)
+        if rc == 124:
+            # the engine outlived its limit (not a crash of one line): stop here, the caller sees fewer observations than inputs
+            stderr_tail = se[-1500:]
+            break
         if i < len(lines):
             # the process stopped before answering lines[i]
             out.append(lines[i] + " " + crash_mark)
